@@ -536,3 +536,171 @@ Example monitor_silent_example_concurrent :
                 A 1; A 1; L [A 0]; L []] in
   agree17 inp obs = true /\ mon17 inp obs = [].
 Proof. exact conc_example. Qed.
+
+(** ** Clauses 24 / 25 (success reported only with justification) on the event
+    log of EVERY trace of the model.
+
+    The judge for kind 2 accepts an observation iff its statuses, maxima and
+    sink are those of a state the model's transition system reaches; it does
+    not read the event log (above).  The transition system has no log of its
+    own; Compose/EventLog.v says which harness events a step emits ([tlog m s
+    tr]: start; return of the backend call a caller is released from, with
+    the backend's answer; arrival in the next backend call; the caller's own
+    return), and Run/R17LogExamples.v checks on five schedules replayed on the
+    real decorators that [tlog] of the corresponding trace IS the recorded log,
+    event for event.  The theorems are by induction over ALL traces (any
+    number of callers, any interleaving of the atomic steps, any faults,
+    cancellations, clock advances): no hypothesis but "tr is a trace". *)
+From BBS Require Import Compose.EventLog Run.R17LogBase Run.R17LogLimit Run.R17LogQueued Run.R17LogDedup
+  Run.R17LogOrder Run.R17LogMon Run.R17LogExamples.
+
+(** Clause 24, deduplicating replicator: a caller that returned OK has, for
+    every object of its set, a justifying event (sink.FindMissing reporting it
+    present / a successful sink.Put) by a caller whose next event comes after
+    the asking caller's start. *)
+Theorem clause24_silent_on_every_dedup_trace : forall sets source sink tr s,
+  run MDedup (init_state sets source sink) tr = Some s ->
+  clause24_ok sets (tlog MDedup (init_state sets source sink) tr).
+Proof. exact dedup_clause24. Qed.
+Print Assumptions clause24_silent_on_every_dedup_trace.
+
+(** Clause 24, concurrency-limiting replicator. *)
+Theorem clause24_silent_on_every_limit_trace : forall lim sets source sink tr s,
+  run (MLimit lim) (init_state sets source sink) tr = Some s ->
+  clause24_ok sets (tlog (MLimit lim) (init_state sets source sink) tr).
+Proof. exact limit_clause24. Qed.
+Print Assumptions clause24_silent_on_every_limit_trace.
+
+(** Clause 25, queued replicator: for every object some caller put it into
+    the sink and returned OK at a clock reading no more than [dur] before the
+    asking caller's start. *)
+Theorem clause25_silent_on_every_queued_trace : forall size dur sets source sink tr s,
+  run (MQueued size dur) (init_state sets source sink) tr = Some s ->
+  clause25_ok dur sets (tlog (MQueued size dur) (init_state sets source sink) tr).
+Proof. exact queued_clause25. Qed.
+Print Assumptions clause25_silent_on_every_queued_trace.
+
+(** In the monitor's own terms: the success clauses of [mon_conc] on an
+    observation whose log is the log of a trace (whatever its other fields). *)
+Theorem monitor_success_clauses_silent_on_every_trace : forall inp m sets source sink evs o0 o1 o2 o3 tr s,
+  conc_cfg inp = (m, sets, source, sink, evs) ->
+  run m (init_state sets source sink) tr = Some s ->
+  mon_conc_success inp (L [o0; o1; o2; o3; L (tlog m (init_state sets source sink) tr)]) = [].
+Proof. exact conc_success_silent_on_trace. Qed.
+Print Assumptions monitor_success_clauses_silent_on_every_trace.
+
+(** The whole kind-2 monitor (21/22/23 and 24/25) on what the model shows
+    along a trace: maxima and sink of the state reached, log of the trace. *)
+Theorem monitor_conc_silent_on_every_trace : forall inp m sets source sink evs rounds tr s,
+  conc_cfg inp = (m, sets, source, sink, evs) ->
+  run m (init_state sets source sink) tr = Some s ->
+  mon_conc inp (L [rounds; of_nat (maxkey s); of_nat (maxall s); of_nats (snk s);
+                   L (tlog m (init_state sets source sink) tr)]) = [].
+Proof. exact mon_conc_silent_on_trace. Qed.
+Print Assumptions monitor_conc_silent_on_every_trace.
+
+(** "Agree implies no violation", all clauses, kind 2: an observation the
+    judge accepts, carrying the log of ANY trace of the model, is still
+    accepted and raises no clause.  Together with
+    [monitor_silent_on_agreeing_observation_sequential] (kinds 0, 1, 3) this
+    covers every kind; the hypothesis on the log cannot be dropped
+    ([monitor_domain_boundary]). *)
+Theorem monitor_silent_on_agreeing_observation_concurrent_with_model_log :
+  forall inp obs m sets source sink evs tr s,
+  sx_Z (sx_nth inp 0) = 2 -> agree17 inp obs = true ->
+  conc_cfg inp = (m, sets, source, sink, evs) ->
+  run m (init_state sets source sink) tr = Some s ->
+  let obs' := L [sx_nth obs 0; sx_nth obs 1; sx_nth obs 2; sx_nth obs 3; L (tlog m (init_state sets source sink) tr)] in
+  agree17 inp obs' = true /\ mon17 inp obs' = [].
+Proof. exact mon17_silent_on_accepted_with_model_log. Qed.
+Print Assumptions monitor_silent_on_agreeing_observation_concurrent_with_model_log.
+
+(** The order in which the log lines are written.  The model emits the events
+    of one atomic step contiguously; the harness's goroutines write their own
+    lines, so when one caller's lock-protected section wakes another, the
+    lines the two write next may come in either order.  Start events are
+    written by the scheduler at quiescent points - no line moves across one -
+    and every caller's own lines keep their order.  [same_run lg lg']: the
+    per-caller subsequences of lg' are those of lg; the start events of either
+    are at the same positions in the other, with the same number of lines of
+    every caller before them.  It is reflexive and transitive and contains
+    every swap of two adjacent non-start lines of different callers, hence
+    every sequence of such swaps; clauses 24 and 25 are invariant under it
+    (24 via: "justified after st" holds iff some caller's m-th line justifies
+    and that caller has at most m+1 lines up to position st). *)
+Theorem same_run_is_a_preorder_containing_adjacent_swaps :
+  (forall lg, same_run lg lg) /\
+  (forall a b c, same_run a b -> same_run b c -> same_run a c) /\
+  (forall l1 a b l2, lg_caller a <> lg_caller b -> is_start_ev a = false -> is_start_ev b = false ->
+     same_run (l1 ++ a :: b :: l2) (l1 ++ b :: a :: l2)).
+Proof. exact (conj same_run_refl (conj same_run_trans same_run_swap)). Qed.
+Print Assumptions same_run_is_a_preorder_containing_adjacent_swaps.
+
+Theorem clause24_invariant_under_write_order : forall sets lg lg',
+  same_run lg lg' -> clause24_ok sets lg -> clause24_ok sets lg'.
+Proof. exact clause24_same_run. Qed.
+Print Assumptions clause24_invariant_under_write_order.
+
+Theorem clause25_invariant_under_write_order : forall dur sets lg lg',
+  same_run lg lg' -> clause25_ok dur sets lg -> clause25_ok dur sets lg'.
+Proof. exact clause25_same_run. Qed.
+Print Assumptions clause25_invariant_under_write_order.
+
+(** "Agree implies no violation", all clauses, kind 2, for the log of any
+    trace however the lines of a round were ordered. *)
+Theorem monitor_silent_on_agreeing_observation_concurrent_any_write_order :
+  forall inp obs m sets source sink evs tr s lg',
+  sx_Z (sx_nth inp 0) = 2 -> agree17 inp obs = true ->
+  conc_cfg inp = (m, sets, source, sink, evs) ->
+  run m (init_state sets source sink) tr = Some s ->
+  same_run (tlog m (init_state sets source sink) tr) lg' ->
+  let obs' := L [sx_nth obs 0; sx_nth obs 1; sx_nth obs 2; sx_nth obs 3; L lg'] in
+  agree17 inp obs' = true /\ mon17 inp obs' = [].
+Proof. exact mon17_silent_on_accepted_any_write_order. Qed.
+Print Assumptions monitor_silent_on_agreeing_observation_concurrent_any_write_order.
+
+(** Instance: the waiter writes "caller 1 returns" before the leader writes
+    "caller 0 returns". *)
+Example waiter_writes_its_return_first :
+  let tr := [EStart 0; ETau 0 false; EStart 1; ETau 1 false; ERel 0 0; ERel 0 0; ERel 0 0;
+             ETau 0 false; ETau 0 false; ETau 1 false] in
+  let lg := tlog MDedup (init_state [[0%nat]; [0%nat]] [0%nat] []) tr in
+  let l1 := firstn 8 lg in
+  let a := L [A 3; A 0; A 0; A 0] in
+  let b := L [A 3; A 1; A 0; A 0] in
+  lg = l1 ++ [a; b] /\ same_run lg (l1 ++ [b; a])
+  /\ mon17 (L [A 2; L [A 0]; L [L [A 0]; L [A 0]]; L [A 0]; L []; L []]) (L [L []; A 1; A 1; L [A 0]; L (l1 ++ [b; a])]) = [].
+Proof. exact dedup_waiter_writes_its_return_first. Qed.
+
+(** Non-vacuity, and the tie of [tlog] to the real code: the log of the trace
+    that follows the schedule is the log the harness recorded from the real
+    deduplicating replicator (two callers, the waiter is told OK on the
+    strength of the leader's copy); the monitor is silent on it.  Further
+    instances (limiter with a queued caller, queued replicator answering from
+    the existence cache after a clock advance, two keys with a failing Get,
+    and the case "justified before the waiter started" that only the model
+    can schedule) are in Run/R17LogExamples.v. *)
+Example model_log_is_the_recorded_log :
+  let tr := [EStart 0; ETau 0 false; EStart 1; ETau 1 false; ERel 0 0; ERel 0 0; ERel 0 0;
+             ETau 0 false; ETau 0 false; ETau 1 false] in
+  let lg := tlog MDedup (init_state [[0%nat]; [0%nat]] [0%nat] []) tr in
+  lg = [L [A 0; A 0; A 0];
+        L [A 1; A 0; A 0; A 2; L [A 0]; A 0];
+        L [A 0; A 1; A 0];
+        L [A 2; A 0; A 0; A 2; L [A 0]; A 0; L [A 0]; A 0];
+        L [A 1; A 0; A 1; A 0; L [A 0]; A 0];
+        L [A 2; A 0; A 1; A 0; L [A 0]; A 0; L []; A 0];
+        L [A 1; A 0; A 0; A 1; L [A 0]; A 0];
+        L [A 2; A 0; A 0; A 1; L [A 0]; A 0; L []; A 0];
+        L [A 3; A 0; A 0; A 0];
+        L [A 3; A 1; A 0; A 0]]
+  /\ mon17 (L [A 2; L [A 0]; L [L [A 0]; L [A 0]]; L [A 0]; L []; L []]) (L [L []; A 1; A 1; L [A 0]; L lg]) = [].
+Proof. exact dedup_log_is_the_recorded_log. Qed.
+
+Example justified_before_the_waiter_started :
+  let tr := [EStart 0; ETau 0 false; ERel 0 0; EStart 1; ETau 1 false; ETau 0 false; ETau 0 false; ETau 1 false] in
+  let lg := tlog MDedup (init_state [[0%nat]; [0%nat]] [] [0%nat]) tr in
+  map lg_kind lg = [0; 1; 2; 0; 3; 3]
+  /\ map lg_caller lg = [0; 0; 0; 1; 0; 1]%nat
+  /\ mon17 (L [A 2; L [A 0]; L [L [A 0]; L [A 0]]; L []; L [A 0]; L []]) (L [L []; A 0; A 0; L [A 0]; L lg]) = [].
+Proof. exact dedup_justified_before_the_waiter_started. Qed.
